@@ -672,6 +672,10 @@ def unwrap(M, st, fr, t, args, site):
             s2 = st.copy()
             if all(M.assume(s2, e, tr) for e, tr in ass):
                 st.events.append(('may-panic', 'unwrap', fr.key, site[1], None, M.describe(st, v)))
+    if not out:
+        # only the failing side is left on this path (a helper read in returned the Err / None itself): the path ends in the panic, and
+        # has to be kept - with no continuation the record of it would be lost with the state
+        return ('diverge', 'unwrap of %s' % M.describe(st, v))
     return ('fork', out)
 
 
